@@ -926,4 +926,224 @@ example : graphRoundtrip (P := String) concrete exNode = .ok (gnorm concrete exN
     (by simp [Shaped, ShapedKids, exNode, exService, exIface, Sliver.kind, slotOf])
     (wfB_sound concrete exNode (by decide)) (by decide)
 
+/-! #### several properties of one element: a write to one leaves the others
+
+`<Element>.set_property(k, v)` writes the COMPLETE dictionary of a fresh sliver with `k` set, so it rewrites every graph
+property the fresh sliver carries besides `k`'s: the always-written rows (`StitchNode`) and every property the sliver
+class's `__init__` starts with a value for (`freshDefaults`, probed every run).  `frame_ok` checks on the generated tables
+that this is `stitch_node` and nothing else; under it a history over SEVERAL properties decomposes per property. -/
+
+/-- properties a write of another property may rewrite: the always-written flag (known finding
+`C02:frame:stitch_node:reset-to-default:by=set`, `frame_stitch_counterexample`) and the fate-sharing image pair -/
+def frameExempt : List String := ["stitch_node", "image_ref", "image_type"]
+
+/-- per kind: every rebuilt property outside `frameExempt` starts as None in a fresh sliver of the kind and its to-row is
+not an always-written one -/
+def frameOK (T : KindTable) : Bool :=
+  T.fromRows.all (fun f => frameExempt.contains f.key || (!(rowOf T f).always && freshOf T.kind f.key == none))
+
+/-- over the complete generated tables (mapping rows and the probed fresh-sliver defaults of every sliver class) -/
+theorem frame_ok : tables.all frameOK = true := by decide
+
+section
+variable {V P : Type}
+
+theorem readRow_congr (C : Codecs V P) (p q : Props P) (f : FromRow) (h : q f.gprop = p f.gprop) :
+    readRow C q f = readRow C p f := by
+  unfold readRow decodeRow
+  rw [h]
+
+/-- the route of an operation on property `k` belongs to class `E` and names `k` -/
+def RouteFor (E : ElemClass) (k : Key) : PropOp V → Prop
+  | .set route _ => (match route with
+      | .attr r => r ∈ E.routes ∧ r.prop = k ∧ r.onValue ≠ OnValue.none
+      | _ => True)
+  | .unset route => (match route with
+      | .attrNone r => r ∈ E.routes ∧ r.prop = k ∧ r.onValue ≠ OnValue.none
+      | _ => True)
+
+/-- an admissible operation on another property `fk.key` of the element -/
+def OtherOK (T : KindTable) (E : ElemClass) (fk : FromRow) (op : PropOp V) : Prop :=
+  fk ∈ T.fromRows ∧ fk.key ∉ pairKeys ∧ RouteFor E fk.key op ∧
+  (match op with | .unset _ => fk.key ∉ unsetExempt ∧ fk.gprop ∉ noUnset | .set _ _ => True)
+
+/-- distinct single-row properties live in distinct graph properties -/
+theorem gprop_ne_of_key_ne {T : KindTable} (hR : rowsOK T = true) (f fk : FromRow) (hf : f ∈ T.fromRows) (hfk : fk ∈ T.fromRows)
+    (hp : f.key ∉ pairKeys) (hpk : fk.key ∉ pairKeys) (hne : fk.key ≠ f.key) : fk.gprop ≠ f.gprop := by
+  intro e
+  obtain ⟨_, hk1, _⟩ := rowsOK_single hR f hf hp
+  obtain ⟨_, hk2, _⟩ := rowsOK_single hR fk hfk hpk
+  have : rowOf T fk = rowOf T f := by unfold rowOf; rw [e]
+  rw [this, hk1] at hk2
+  exact hne (List.cons.inj hk2).1.symm
+
+/-- **frame, one step**: an operation on property `fk.key` - a write or an unset, through any route - leaves the graph
+property of every OTHER property `f.key` as it was, provided a fresh sliver holds nothing for `f.key` and its row is not
+an always-written one (`frameOK`) -/
+theorem step_leaves_other_property (C : Codecs V P) (T : KindTable) (hT : T ∈ tables) (E : ElemClass) (hE : E ∈ elemClasses)
+    (f : FromRow) (hf : f ∈ T.fromRows) (hp : f.key ∉ pairKeys) (wn : String → V) (fresh : Fields V)
+    (hfresh : fresh f.key = none) (hal : (rowOf T f).always = false)
+    (fk : FromRow) (op : PropOp V) (hok : OtherOK T E fk op) (hne : fk.key ≠ f.key)
+    (p p' : Props P) (h : stepOp C T E wn fresh fk.key p op = .ok p') : p' f.gprop = p f.gprop := by
+  have hTok : tableOK T = true := List.all_eq_true.mp tables_ok T hT
+  have hRok : rowsOK T = true := List.all_eq_true.mp rows_ok T hT
+  have hEok : classOK E = true := List.all_eq_true.mp routes_ok E hE
+  obtain ⟨hfk, hpk, hroute, hun⟩ := hok
+  obtain ⟨hr, hk, hg⟩ := rowsOK_single hRok f hf hp
+  cases op with
+  | set route v =>
+    have hw : route.Writes E fk.key := by
+      cases route with
+      | setProperty => trivial
+      | setProperties => trivial
+      | attr r =>
+        obtain ⟨hr', hrk, hrv⟩ := hroute
+        have := classOK_writes hEok r hr' hrv (by rw [hrk]; exact hpk)
+        rw [hrk] at this
+        exact this
+    simp only [stepOp] at h
+    rw [setVia_eq C T E wn fresh p fk.key v route hw] at h
+    cases h
+    rw [hg]
+    apply set_frame
+    rw [toProps_mem C T _ (rowOf T f) (tableOK_nodup_g hTok) hr]
+    unfold rowOut
+    have hv : rowVals (fresh.set fk.key (some v)) (rowOf T f).keys = none := by
+      rw [hk]
+      unfold rowVals
+      have : (fresh.set fk.key (some v)) f.key = none := by
+        unfold Fields.set
+        rw [if_neg (fun e => hne e.symm)]
+        exact hfresh
+      simp [List.mapM_cons, this]
+    rw [hv, hal]
+    rfl
+  | unset route =>
+    obtain ⟨hx, hid⟩ := hun
+    have hu : route.Unsets E fk.key := by
+      cases route with
+      | unsetProperty => trivial
+      | setPropertyNone =>
+        have := hEok
+        simp only [classOK, Bool.and_eq_true] at this
+        exact this.1.1.1
+      | attrNone r =>
+        obtain ⟨hr', hrk, hrv⟩ := hroute
+        have := classOK_unsets hEok r hr' hrv (by rw [hrk]; exact hx)
+        rw [hrk] at this
+        exact this
+    simp only [stepOp] at h
+    rw [unsetVia_eq C T E wn fresh p fk.key route hu] at h
+    obtain ⟨_, _, hmap⟩ := rowsOK_unset hRok fk hfk hx hid
+    apply unset_frame p p' fk.key f.gprop h
+    rw [hmap]
+    intro e
+    exact gprop_ne_of_key_ne hRok f fk hf hfk hp hpk hne (Option.some.inj e)
+
+/-- a history over several properties of one element: (property, operation) pairs -/
+def runKeys (C : Codecs V P) (T : KindTable) (E : ElemClass) (wn : String → V) (fresh : Fields V) :
+    List (FromRow × PropOp V) → Props P → Except Err (Props P)
+  | [], p => .ok p
+  | kop :: rest, p =>
+    match stepOp C T E wn fresh kop.1.key p kop.2 with
+    | .ok p' => runKeys C T E wn fresh rest p'
+    | .error e => .error e
+
+theorem runKeys_append (C : Codecs V P) (T : KindTable) (E : ElemClass) (wn : String → V) (fresh : Fields V)
+    (a b : List (FromRow × PropOp V)) (p p' : Props P) (h : runKeys C T E wn fresh (a ++ b) p = .ok p') :
+    ∃ q, runKeys C T E wn fresh a p = .ok q ∧ runKeys C T E wn fresh b q = .ok p' := by
+  induction a generalizing p with
+  | nil => exact ⟨p, rfl, h⟩
+  | cons o os ih =>
+    simp only [List.cons_append, runKeys] at h ⊢
+    cases hq : stepOp C T E wn fresh o.1.key p o.2 with
+    | error e => rw [hq] at h; cases h
+    | ok q =>
+      rw [hq] at h
+      exact ih q h
+
+/-- **frame, all histories**: whatever is done to OTHER properties of the element - any number of writes and unsets,
+through any routes - the graph property of `f.key` stays as it was -/
+theorem other_properties_leave_property (C : Codecs V P) (T : KindTable) (hT : T ∈ tables) (E : ElemClass) (hE : E ∈ elemClasses)
+    (f : FromRow) (hf : f ∈ T.fromRows) (hp : f.key ∉ pairKeys) (wn : String → V) (fresh : Fields V)
+    (hfresh : fresh f.key = none) (hal : (rowOf T f).always = false)
+    (kops : List (FromRow × PropOp V)) (hok : ∀ kop ∈ kops, OtherOK T E kop.1 kop.2 ∧ kop.1.key ≠ f.key)
+    (p p' : Props P) (h : runKeys C T E wn fresh kops p = .ok p') : p' f.gprop = p f.gprop := by
+  induction kops generalizing p with
+  | nil => simp only [runKeys] at h; cases h; rfl
+  | cons o os ih =>
+    simp only [runKeys] at h
+    cases hq : stepOp C T E wn fresh o.1.key p o.2 with
+    | error e => rw [hq] at h; cases h
+    | ok q =>
+      rw [hq] at h
+      have h1 := ih (fun kop hm => hok kop (List.mem_cons_of_mem _ hm)) q h
+      have ho := hok o List.mem_cons_self
+      rw [h1]
+      exact step_leaves_other_property C T hT E hE f hf hp wn fresh hfresh hal o.1 o.2 ho.1 ho.2 p q hq
+
+/-- **the last operation ON THAT PROPERTY decides, over all histories over several properties**: set `layer`, then set
+`details`, `labels`, `user_data`, unset `details`, ...: `layer` still reads what its own last operation made it -/
+theorem history_last_op_on_property_decides (C : Codecs V P) (T : KindTable) (hT : T ∈ tables) (E : ElemClass)
+    (hE : E ∈ elemClasses) (f : FromRow) (hf : f ∈ T.fromRows) (hp : f.key ∉ pairKeys) (hx : f.key ∉ unsetExempt)
+    (hid : f.gprop ∉ noUnset) (wn : String → V) (fresh : Fields V)
+    (hfresh : fresh f.key = none) (hal : (rowOf T f).always = false)
+    (before : List (FromRow × PropOp V)) (op : PropOp V) (hop : OpOK C T E f op)
+    (after : List (FromRow × PropOp V)) (hok : ∀ kop ∈ after, OtherOK T E kop.1 kop.2 ∧ kop.1.key ≠ f.key)
+    (p p' : Props P) (h : runKeys C T E wn fresh (before ++ (f, op) :: after) p = .ok p') :
+    readRow C p' f = .ok (match op with | .set _ v => some v | .unset _ => none) := by
+  obtain ⟨q, _, h2⟩ := runKeys_append C T E wn fresh before ((f, op) :: after) p p' h
+  simp only [runKeys] at h2
+  cases hq : stepOp C T E wn fresh f.key q op with
+  | error e => rw [hq] at h2; cases h2
+  | ok q2 =>
+    rw [hq] at h2
+    have hfr := other_properties_leave_property C T hT E hE f hf hp wn fresh hfresh hal after hok q2 p' h2
+    rw [readRow_congr C q2 p' f hfr]
+    have h1 : runHistory C T E wn fresh f.key ([] ++ [op]) q = .ok q2 := by
+      simp only [List.nil_append, runHistory, hq]
+    have h3 := history_last_op_decides C T hT E hE f hf hp hx hid wn fresh [] op hop q q2 h1
+    cases op <;> exact h3
+
+end
+
+/-- the two `frameOK` hypotheses of the frame theorems hold on the generated tables for the probed fresh sliver of the
+kind, for every rebuilt property outside `frameExempt` -/
+theorem frame_hyps_of_tables (T : KindTable) (hT : T ∈ tables) (f : FromRow) (hf : f ∈ T.fromRows) (hx : f.key ∉ frameExempt) :
+    freshOf T.kind f.key = none ∧ (rowOf T f).always = false := by
+  have h := List.all_eq_true.mp (List.all_eq_true.mp frame_ok T hT) f hf
+  simp only [Bool.or_eq_true, List.contains_iff_mem, Bool.and_eq_true, Bool.not_eq_true', beq_iff_eq] at h
+  rcases h with h | h
+  · exact absurd h hx
+  · exact ⟨h.2, h.1⟩
+
+/-- ... so on the driver's model (`concrete`, the probed `freshOf`) the frame holds for every kind, element class and
+property outside `frameExempt`, with no hypothesis left on the fresh sliver -/
+theorem other_properties_leave_property_repo (T : KindTable) (hT : T ∈ tables) (E : ElemClass) (hE : E ∈ elemClasses)
+    (f : FromRow) (hf : f ∈ T.fromRows) (hx : f.key ∉ frameExempt) (wn : String → Val)
+    (kops : List (FromRow × PropOp Val)) (hok : ∀ kop ∈ kops, OtherOK T E kop.1 kop.2 ∧ kop.1.key ≠ f.key)
+    (p p' : Props String) (h : runKeys concrete T E wn (freshOf T.kind) kops p = .ok p') : p' f.gprop = p f.gprop := by
+  obtain ⟨h1, h2⟩ := frame_hyps_of_tables T hT f hf hx
+  have hp : f.key ∉ pairKeys := fun hm => hx (by
+    simp only [pairKeys, List.mem_cons, List.not_mem_nil, or_false] at hm
+    simp only [frameExempt, List.mem_cons, List.not_mem_nil, or_false]
+    exact Or.inr hm)
+  exact other_properties_leave_property concrete T hT E hE f hf hp wn (freshOf T.kind) h1 h2 kops hok p p' h
+
+/-- the exemption is needed for the code as it is: a node with `StitchNode = "true"` whose `details` is set holds
+`StitchNode = "false"` afterwards (known finding `C02:frame:stitch_node:reset-to-default:by=set`, replayed on the
+implementation by corpus/C02/known_elem_stitch_reset.json) -/
+theorem frame_stitch_counterexample :
+    (setProperty concrete nodeTable (freshOf "node") ((Props.empty : Props String).set "StitchNode" "true") "details" (.str "d"))
+      "StitchNode" = some "false" := by decide
+
+/-- non-vacuity: `layer` of a link set to L1, then `details` written and unset, `labels` left alone: admissible, runs to its end -/
+def layerFrom : FromRow := (linkTable.fromRows.find? (fun f => f.key == "layer")).getD default
+def detailsFrom : FromRow := (linkTable.fromRows.find? (fun f => f.key == "details")).getD default
+example : layerFrom ∈ linkTable.fromRows ∧ layerFrom.key ∉ frameExempt ∧ detailsFrom ∈ linkTable.fromRows ∧
+    detailsFrom.key ≠ layerFrom.key ∧ detailsFrom.key ∉ pairKeys ∧ detailsFrom.key ∉ unsetExempt ∧ detailsFrom.gprop ∉ noUnset := by decide
+example : (runKeys concrete linkTable elemLink (fun c => Val.jdata c "{}") (freshOf "link")
+    [(layerFrom, .set .setProperty (.enum "NSLayer" "L1")), (detailsFrom, .set .setProperties (.str "leased")),
+     (detailsFrom, .unset .unsetProperty)] Props.empty).toOption.map (fun p => p "Layer") = some (some "L1") := by decide
+
 end FimVerif.C02
